@@ -52,7 +52,9 @@ StSet(d, new, bug) ==
 \* allocate a (a <= e - kept + Slack).  Transcription of SEQ_BLOCK_INIT / SEQ_CODER_INIT / SEQ_MEMUSAGE.
 StReach(d, e, a, bug) ==
     LET d1 == IF "usage_not_updated" \in bug THEN [d EXCEPT !.need = e] ELSE [d EXCEPT !.usage = e, !.need = e] IN
-    IF "compare_after_alloc" \in bug
+    IF "limit_checked_once" \in bug /\ d.phase = "blocked"         \* a retry after MEMLIMIT_ERROR skips the test
+    THEN <<"OK", [d1 EXCEPT !.phase = "run", !.held = a]>>
+    ELSE IF "compare_after_alloc" \in bug
     THEN IF e > d.limit THEN <<"MEMLIMIT_ERROR", [d1 EXCEPT !.phase = "blocked", !.held = a]>>   \* allocated first
          ELSE <<"OK", [d1 EXCEPT !.phase = "run", !.held = a]>>
     ELSE IF e > d.limit
